@@ -1546,3 +1546,242 @@ pub fn cmd_zst(a: &Args) -> i32 {
     emit(J::obj().set("t", J::s("summary")).set("engine", J::s("zst")).set("cases", J::u64(cases)).set("distinct_nontrivial", J::u64(nontrivial)).set("violations", J::u64(violations)).set("wall_s", J::F(t0.elapsed().as_secs_f64())));
     (violations > 0) as i32
 }
+
+// =================================================================================================
+// wrappers: values() / ids_and_values() driven through std's adaptor methods (nth, skip, step_by, take, last,
+// count) on one thread, against a cursor model
+// =================================================================================================
+
+struct WrapVisitor {
+    seed: u64,
+    steps: usize,
+}
+
+impl Visitor for WrapVisitor {
+    type Out = Result<(usize, Vec<String>), String>;
+    fn visit<C: ConcurrentIter>(self, it: C, info: &SrcInfo) -> Self::Out
+    where
+        C::Item: Elem,
+    {
+        let mut rng = Rng::new(self.seed);
+        let len = info.len;
+        let mut c = 0usize; // model cursor: next undelivered position (sequential use)
+        let mut trace: Vec<String> = Vec::new();
+        let mut checked = 0usize;
+        let pos_of = |x: &C::Item| x.ident(info);
+        macro_rules! expect {
+            ($what:expr, $got:expr, $want:expr) => {{
+                checked += 1;
+                let got: Option<(Option<usize>, u64)> = $got;
+                let want: Option<usize> = $want;
+                match (got, want) {
+                    (None, None) => {}
+                    (Some((idx, id)), Some(w)) => {
+                        if id != w as u64 || idx.map(|i| i != w).unwrap_or(false) {
+                            return Err(format!("{} returned (index {:?}, position {}) but position {} was expected; trace {:?}", $what, idx, id, w, trace));
+                        }
+                    }
+                    (g, w) => return Err(format!("{} returned {:?} but {:?} was expected; trace {:?}", $what, g.map(|x| x.1), w, trace)),
+                }
+            }};
+        }
+        for _ in 0..self.steps {
+            match rng.below(9) {
+                0 => {
+                    trace.push("next".into());
+                    let r = it.next_id_and_value().map(|x| (Some(x.idx), pos_of(&x.value).id));
+                    let w = if c < len { Some(c) } else { None };
+                    c = (c + 1).min(len.max(c));
+                    if w.is_some() {
+                        c = w.unwrap() + 1;
+                    }
+                    expect!("next_id_and_value", r, w);
+                }
+                1 => {
+                    let m = rng.below(4);
+                    trace.push(format!("values().nth({m})"));
+                    let r = it.values().nth(m).map(|x| (None, pos_of(&x).id));
+                    let w = if c + m < len { Some(c + m) } else { None };
+                    c = (c + m + 1).min(len);
+                    expect!("values().nth", r, w);
+                }
+                2 => {
+                    let m = rng.below(4);
+                    trace.push(format!("ids_and_values().nth({m})"));
+                    let r = it.ids_and_values().nth(m).map(|(i, x)| (Some(i), pos_of(&x).id));
+                    let w = if c + m < len { Some(c + m) } else { None };
+                    c = (c + m + 1).min(len);
+                    expect!("ids_and_values().nth", r, w);
+                }
+                3 => {
+                    let m = rng.below(4);
+                    trace.push(format!("values().skip({m}).next()"));
+                    let r = it.values().skip(m).next().map(|x| (None, pos_of(&x).id));
+                    let w = if c + m < len { Some(c + m) } else { None };
+                    c = (c + m + 1).min(len);
+                    expect!("values().skip().next()", r, w);
+                }
+                4 => {
+                    let s = rng.range(2, 4);
+                    let t = rng.range(1, 4);
+                    trace.push(format!("ids_and_values().step_by({s}).take({t})"));
+                    let got: Vec<(usize, u64)> = it.ids_and_values().step_by(s).take(t).map(|(i, x)| (i, pos_of(&x).id)).collect();
+                    let mut want = Vec::new();
+                    let mut p = c;
+                    for k in 0..t {
+                        if p < len {
+                            want.push(p);
+                            c = p + 1;
+                            p += s;
+                        } else {
+                            // the adaptor polled and found the end
+                            if k > 0 {
+                                c = len;
+                            } else {
+                                c = c.max(len).min(len.max(c));
+                            }
+                            break;
+                        }
+                    }
+                    checked += 1;
+                    if got.iter().map(|g| g.1 as usize).collect::<Vec<_>>() != want || got.iter().any(|(i, id)| *i as u64 != *id) {
+                        return Err(format!("ids_and_values().step_by({s}).take({t}) returned (index, position) {:?} but positions {:?} were expected; trace {:?}", got, want, trace));
+                    }
+                    // take(t) stops polling after t items; if fewer were found the end was reached
+                    if want.len() < t {
+                        c = len;
+                    }
+                }
+                5 => {
+                    let t = rng.range(1, 3);
+                    trace.push(format!("values().take({t}).count()"));
+                    let got = it.values().take(t).count();
+                    let want = t.min(len.saturating_sub(c));
+                    c = (c + want).min(len);
+                    if want < t {
+                        c = len;
+                    }
+                    checked += 1;
+                    if got != want {
+                        return Err(format!("values().take({t}).count() is {got}, expected {want}; trace {:?}", trace));
+                    }
+                }
+                6 => {
+                    let n = rng.range(1, 4);
+                    trace.push(format!("next_chunk({n})"));
+                    let r = it.next_chunk(n);
+                    let want = if c < len { Some((c, n.min(len - c))) } else { None };
+                    checked += 1;
+                    match (r, want) {
+                        (None, None) => {}
+                        (Some(ch), Some((b, l))) => {
+                            let ids: Vec<u64> = ch.values.map(|x| pos_of(&x).id).collect();
+                            if ch.begin_idx != b || ids != (b as u64..(b + l) as u64).collect::<Vec<_>>() {
+                                return Err(format!("next_chunk({n}) returned begin {} positions {:?}, expected {}..{}; trace {:?}", ch.begin_idx, ids, b, b + l, trace));
+                            }
+                            c = b + l;
+                        }
+                        (g, w) => return Err(format!("next_chunk({n}) returned {:?}, expected {:?}; trace {:?}", g.map(|x| x.begin_idx), w, trace)),
+                    }
+                }
+                7 => {
+                    trace.push("try_get_len".into());
+                    if info.exact_len {
+                        checked += 1;
+                        let l = it.try_get_len();
+                        if l != Some(len.saturating_sub(c)) {
+                            return Err(format!("try_get_len is {:?}, expected Some({}); trace {:?}", l, len.saturating_sub(c), trace));
+                        }
+                    }
+                }
+                _ => {
+                    let s = rng.range(2, 3);
+                    trace.push(format!("values().step_by({s}).take(2)"));
+                    let got: Vec<u64> = it.values().step_by(s).take(2).map(|x| pos_of(&x).id).collect();
+                    let mut want = Vec::new();
+                    if c < len {
+                        want.push(c as u64);
+                        if c + s < len {
+                            want.push((c + s) as u64);
+                            c = c + s + 1;
+                        } else {
+                            c = len;
+                        }
+                    }
+                    checked += 1;
+                    if got != want {
+                        return Err(format!("values().step_by({s}).take(2) returned positions {:?}, expected {:?}; trace {:?}", got, want, trace));
+                    }
+                }
+            }
+        }
+        // the remainder is what the model says
+        let rem: Vec<u64> = it.into_seq_iter().map(|x| x.ident(info).id).collect();
+        let want: Vec<u64> = (c.min(len) as u64..len as u64).collect();
+        if rem != want {
+            return Err(format!("into_seq_iter yielded positions {:?}, expected {:?}; trace {:?}", rem, want, trace));
+        }
+        Ok((checked, trace))
+    }
+}
+
+pub fn cmd_wrappers(a: &Args) -> i32 {
+    let seed = a.u64("seed", 1);
+    let execs = a.u64("execs", 2000);
+    let shard = a.u64("shard", 0);
+    let nshards = a.u64("nshards", 1);
+    let only = a.get("only").map(|s| s.split(':').next().unwrap().parse::<u64>().unwrap());
+    let t0 = std::time::Instant::now();
+    let kinds_: Vec<&str> = kinds::ALL_KINDS.to_vec();
+    let (mut cases, mut violations, mut checked) = (0u64, 0u64, 0u64);
+    let mut nontrivial = HashSet::new();
+    let mut per_kind: BTreeMap<String, u64> = BTreeMap::new();
+    let mut samples = Vec::new();
+    let mut e = shard;
+    while e < execs {
+        if only.map(|o| o != e).unwrap_or(false) {
+            e += nshards;
+            continue;
+        }
+        let mut rng = Rng::new(mix(seed ^ 0x3A99, e));
+        let kind = kinds_[(e as usize) % kinds_.len()];
+        let len = kinds::snap_len(kind, *rng.pick(&[0usize, 1, 2, 3, 5, 8, 13]));
+        let steps = rng.range(2, 10);
+        let s = rng.next_u64();
+        let r = catch_unwind(AssertUnwindSafe(|| with_kind(kind, len, rng.next_u64(), Hint::Exact, None, WrapVisitor { seed: s, steps })));
+        cases += 1;
+        *per_kind.entry(kind.to_string()).or_default() += 1;
+        let problem = match r {
+            Err(_) => Some(format!("panicked: {}", LAST_PANIC.with(|c| c.borrow().clone()))),
+            Ok((Err(e), _, _)) => Some(e),
+            Ok((Ok((n, trace)), _, viol)) => {
+                checked += n as u64;
+                if len > 1 {
+                    let mut h = Fnv::new();
+                    h.add_str(kind);
+                    h.add(len as u64);
+                    h.add_str(&trace.join(";"));
+                    nontrivial.insert(h.0);
+                }
+                if samples.len() < 2 && len > 2 && trace.len() > 3 {
+                    samples.push(J::obj().set("kind", J::s(kind)).set("len", J::u(len)).set("operations", J::A(trace.iter().map(|t| J::s(t)).collect())));
+                }
+                viol.first().map(|v| v.detail.clone())
+            }
+        };
+        if let Some(p) = problem {
+            violations += 1;
+            if violations <= 4 {
+                let case = J::obj().set("case", J::S(format!("{}:0", e))).set("kind", J::s(kind)).set("len", J::u(len));
+                let mut j = violation_json("WRAPPER", &["C02", "C04", "C01", "C10"], &p, case, vec!["wrappers".into(), format!("--seed={}", seed), format!("--execs={}", execs), format!("--only={}", e)]);
+                j.put("kind", J::s(kind));
+                j.put("len", J::u(len));
+                emit(j);
+            }
+        }
+        e += nshards;
+    }
+    write_hashes(a.get("hash-out"), nontrivial.iter());
+    emit(J::obj().set("t", J::s("summary")).set("engine", J::s("wrappers")).set("cases", J::u64(cases)).set("distinct_nontrivial", J::u(nontrivial.len())).set("results_checked", J::u64(checked)).set("per_kind", J::from_map(&per_kind)).set("violations", J::u64(violations)).set("samples", J::A(samples)).set("wall_s", J::F(t0.elapsed().as_secs_f64())));
+    (violations > 0) as i32
+}
